@@ -4,8 +4,10 @@ Tie T1 for x/incentives (owning property C09).  `distributeInternal` is a loop n
 pinned.  The per-lock share `coin·lockAmt / (lockSum·remainEpochs)` is `Mul(v30,v30,coin.Amount)`, `Quo(v30,v30,v24)`
 with `v24` = `lockSum.MulRaw(remainEpochs)`: mirrored by `Incentives.lockCoins` (`(c.2 * amt).tdiv den`), the
 minimum-value check by `Incentives.minFilter` (`==(v28.Denom,v7.Denom)` / `LT(v29,v7.Amount)`: the minimum-value denom
-itself; `LT(v29,v35.Amount)`: cache miss, compared with the fresh quote; `IsZero(v31)` / `LT(v29,v31)`: cache hit, a cached
-zero reads "no route"), the positivity test `Sign() == 1` by `0 < q`.
+itself; `LT(v29,v35.Amount)`: cache miss, compared with the fresh quote; `IsNegative(v31)` / `LT(v29,v31)`: cache hit, a
+cached NEGATIVE value (`noRouteSentinel`) reads "no usable route" — since repository fix af3cbe6371; the two error returns of the
+cache-miss path became sentinel + `continue` with d4c28ad126, which this operator list does not show: the engine does), the
+positivity test `Sign() == 1` by `0 < q`.
 -/
 import OsmoVerif.Gen.IncentivesFn
 
@@ -20,7 +22,7 @@ theorem opsx_Keeper_distributeInternal_pinned : Gen.Incentives.opsx_Keeper_distr
      "Add(v6,v17)", "skipSpamGaugeDistribute(v0,v1,v3,v2,v6,v8)", "IsZero(v22)", "||(_,_)", "MulRaw(v22,_)",
      "BigIntMut(v23)", "guaranteedNonzeroCoinAmountOf(v25.Coins,v21)", "BigIntMut(_)", "NewIntFromBigInt(v27)",
      "BigIntMut(v29)", "BigIntMut(v28.Amount)", "Mul(v30,v30,v28.Amount.BigIntMut())", "Quo(v30,v30,v24)",
-     "==(v28.Denom,v7.Denom)", "LT(v29,v7.Amount)", "!", "LT(v29,v35.Amount)", "IsZero(v31)", "LT(v29,v31)",
+     "==(v28.Denom,v7.Denom)", "LT(v29,v7.Amount)", "!", "LT(v29,v35.Amount)", "IsNegative(v31)", "LT(v29,v31)",
      "Sign(v29)", "==(v29.Sign(),1)", "Add(v26,v36)", "Len(v26)", ">(v26.Len(),1)", "==(v37,\"\")",
      "addLockRewards(v4,v25.Owner,v37,v26)", "Add(v6,v26)", "updateGaugePostDistribute(v0,v1,v2,v6)"] := by decide
 
@@ -32,5 +34,12 @@ theorem opsx_Keeper_updateGaugePostDistribute_pinned : Gen.Incentives.opsx_Keepe
 theorem opsx_Keeper_skipSpamGaugeDistribute_pinned : Gen.Incentives.opsx_Keeper_skipSpamGaugeDistribute =
     ["==(_,0)", "Len(v5)", "==(v5.Len(),1)", "LTE(v5[0].Amount,osmomath.NewInt(100))", "&&(_,_)",
      "!=(v5[0].Denom,\"stake\")", "&&(_,_)"] := by decide
+
+/-- B — `Keeper.checkFinishDistribution` (since repository fix 21bb9c1bc7): candidates by the snapshot (`!IsPerpetual &&
+NumEpochsPaidOver <= FilledEpochs+1`), re-read with `GetGaugeByID`, skipped while `NumEpochsPaidOver > FilledEpochs`, the
+RE-READ gauge is moved: mirrored by `Incentives.finishLoop` -/
+theorem opsx_Keeper_checkFinishDistribution_pinned : Gen.Incentives.opsx_Keeper_checkFinishDistribution =
+    ["!", "<=(v3.NumEpochsPaidOver,_)", "&&(_,_)", "GetGaugeByID(v0,v1,v3.Id)", ">(v4.NumEpochsPaidOver,v4.FilledEpochs)",
+     "moveActiveGaugeToFinishedGauge(v0,v1,v4)"] := by decide
 
 end OsmoVerif.Props.TieGenIncentives
